@@ -3,3 +3,4 @@ CONSTANTS
   MaxLen = 5
   MaxDeep = 4
 INVARIANT Emit
+INVARIANT EmitPool
